@@ -283,7 +283,7 @@ PROPS = {
         rule="case = (entry point, mailbox size, scripted replies); distinct by scenario hash",
         assumptions=[],
         min_distinct=dict(quick=2000, thorough=200000),
-        required_counters=["entry.sdo_read_u32", "entry.sdo_write", "entry.sdo_info_list", "entry.sdo_info_quantities", "reply.mutated", "reply.emergency", "reply.segment", "reply.segmented-initiate-valid", "reply.segment-in-session", "device_refills_forever", "outcome.value", "outcome.error"],
+        required_counters=["entry.sdo_read_u32", "entry.sdo_write", "entry.sdo_info_list", "entry.sdo_info_quantities", "reply.mutated", "reply.emergency", "reply.segment", "reply.segmented-initiate-valid", "reply.segment-in-session", "family.sdo-info-tiny-mailbox", "device_refills_forever", "outcome.value", "outcome.error"],
         runs=[native("mbx-release", "c16", "release"), native("mbx-debug", "c16", "debug", args={"scale-pct": dict(quick=40, thorough=10)}),
               native("mbx-miri", "c16", "miri", args={"cases-total": dict(quick=16, thorough=32), "case-offset": 1000000}, shards=16, timeout=7200, tiers=('thorough',))],
     ),
